@@ -675,7 +675,11 @@ def formula_grammar(table):
     separator = space+Literal('+').suppress()+space
 
     # Lookup the element in the element table
-    symbol = Regex("[A-Z][a-z]?")
+    # Note: "L" followed by white space is the litre unit of a mixture, as in
+    # "1.5 L H2O@1 // 2 g NaCl", not an element.  Failing to match here lets the
+    # parser go on to the mixture forms instead of raising "unknown element L"
+    # from the lookup below (a non-parse exception, which stops all backtracking).
+    symbol = Regex(r"(?!L\s)[A-Z][a-z]?")
     symbol = symbol.setParseAction(lambda s, l, t: table.symbol(t[0]))
 
     # Translate isotope
